@@ -515,19 +515,50 @@ fn spec_flush(h: &Hist) -> Vec<ExpRec> {
     spec(&g).records
 }
 
+/// lines that are not receptions (a log line, an empty line, a write cut short, JSON of another shape, bytes that are
+/// not UTF-8): the reader skips them; the receptions around them are still receptions of the history
+fn noise_line(kind: usize) -> &'static [u8] {
+    match kind % 5 {
+        0 => b"2024-05-01T12:00:00Z rx2 restarted",
+        1 => b"",
+        2 => b"{\"timestamp\": 1.5, \"frame\": \"8d40",
+        3 => b"{\"status\":\"ok\"}",
+        _ => b"rx Orl\xe9ans up",
+    }
+}
+
 fn judge_file(out: &mut Out, bin: &str, h: &Hist) {
+    judge_file_noisy(out, bin, h, 0)
+}
+
+/// `noise` = 0: the file holds the receptions only; otherwise non-reception lines are interleaved (deterministically
+/// from `noise`; failures carry the trailing token `~<noise>` so that the replay writes the same file)
+fn judge_file_noisy(out: &mut Out, bin: &str, h: &Hist, noise: usize) {
     let mut line = op_line(h);
     line.insert(5, 'f'); // dedup -> dedupf
+    let case_line = line.clone();
+    if noise > 0 {
+        line.push_str(&format!(" ~{noise}"));
+        out.stat("decode1090:noisy-files");
+    }
     let path = format!("{}/d1090.jsonl", out.dir);
-    let mut text = String::new();
-    for a in &h.arrivals {
+    let mut text: Vec<u8> = vec![];
+    if noise % 2 == 1 {
+        text.extend_from_slice(noise_line(noise));
+        text.push(b'\n');
+    }
+    for (k, a) in h.arrivals.iter().enumerate() {
+        if noise > 0 && k > 0 && (k + noise) % 3 == 0 {
+            text.extend_from_slice(noise_line(noise + k));
+            text.push(b'\n');
+        }
         let meta: Vec<serde_json::Value> = a
             .rx
             .iter()
             .map(|(s, id)| serde_json::json!({"system_timestamp": a.ts, "nanoseconds": id, "serial": s}))
             .collect();
-        text.push_str(&serde_json::json!({"timestamp": a.ts, "frame": hex(&h.frames[a.fi].0), "metadata": meta}).to_string());
-        text.push('\n');
+        text.extend_from_slice(serde_json::json!({"timestamp": a.ts, "frame": hex(&h.frames[a.fi].0), "metadata": meta}).to_string().as_bytes());
+        text.push(b'\n');
     }
     std::fs::write(&path, text).unwrap();
     let o = std::process::Command::new(bin).args(["-i", &path, "-d", &h.w.to_string()]).output();
@@ -536,7 +567,7 @@ fn judge_file(out: &mut Out, bin: &str, h: &Hist) {
         return;
     };
     if !o.status.success() {
-        out.case(&line, "panic");
+        out.case(&case_line, "panic");
         out.fail("decode1090-run", &line, &format!("decode1090 exited with {:?}", o.status.code()));
         return;
     }
@@ -564,7 +595,7 @@ fn judge_file(out: &mut Out, bin: &str, h: &Hist) {
     if got.is_empty() {
         ans.push('-');
     }
-    out.case(&line, &ans);
+    out.case(&case_line, &ans);
     // with the flush every reception of a decodable frame is written exactly once …
     let mut seen = BTreeSet::new();
     for r in &got {
@@ -610,7 +641,12 @@ fn decode1090_stage(out: &mut Out, rng: &mut Rng, thorough: bool) {
         "dedupf 500 20001838ca3804+,5d484fdea248f5+ 1000:0:1 1125:0:2 1500:1:3 1625:0:4 1750:0:5",
     ] {
         match parse_line(line) {
-            Some(h) => judge_file(out, &bin, &h),
+            Some(h) => {
+                judge_file(out, &bin, &h);
+                for noise in 1..=5 {
+                    judge_file_noisy(out, &bin, &h, noise);
+                }
+            }
             None => out.notes.push(format!("bad fixed dedupf line: {line}")),
         }
     }
@@ -661,7 +697,8 @@ fn decode1090_stage(out: &mut Out, rng: &mut Rng, thorough: bool) {
                 .collect();
             arrivals.push(Arr { ts, fi: rng.below(nf as u64) as usize, rx });
         }
-        judge_file(out, &bin, &Hist { w, frames, arrivals });
+        let noise = if rng.chance(1, 3) { 1 + rng.below(30) as usize } else { 0 };
+        judge_file_noisy(out, &bin, &Hist { w, frames, arrivals }, noise);
     }
     out.exhaustive.push(format!("decode1090 binary: all files of <= {maxlen} lines over (DF4+1 byte, DF4) x {{1,1.25,1.5,1.75}} s x windows {{0,250,500}} ms"));
 }
@@ -833,8 +870,12 @@ fn random_history(rng: &mut Rng, long: bool) -> Hist {
 
 pub fn one(out: &mut Out, line: &str) {
     if line.starts_with("dedupf ") {
+        let (line, noise) = match line.rsplit_once(" ~") {
+            Some((l, n)) if n.parse::<usize>().is_ok() => (l, n.parse::<usize>().unwrap()),
+            _ => (line, 0),
+        };
         match (parse_line(line), decode1090_bin(out)) {
-            (Some(h), Some(bin)) => judge_file(out, &bin, &h),
+            (Some(h), Some(bin)) => judge_file_noisy(out, &bin, &h, noise),
             (None, _) => out.notes.push(format!("bad replay line: {line}")),
             _ => {}
         }
